@@ -22,6 +22,8 @@ def decodeW (spec : Bytes → SRes) (b : Bytes) : Bytes × List Item := refDrain
 
 def NoLimit (items : List Item) : Prop := ∀ it ∈ items, it ≠ Item.limit
 
+instance (items : List Item) : Decidable (NoLimit items) := by unfold NoLimit; infer_instance
+
 variable {spec : Bytes → SRes}
 
 theorem refDrain_fuel_aux (L : SpecLaws spec) (n : Nat) :
